@@ -13,6 +13,7 @@ value); ``merge`` folds them into If-terms.
 from __future__ import annotations
 
 import ast
+import importlib
 import inspect
 import textwrap
 
@@ -21,6 +22,9 @@ import z3
 
 class Unsupported(Exception):
     pass
+
+
+_MISSING = object()
 
 
 # float("inf") is modelled as a real constant larger than any quantity the obligations mention
@@ -274,6 +278,7 @@ class Interp:
             if name == "float" and len(n.args) == 1 and isinstance(n.args[0], ast.Constant) \
                     and str(n.args[0].value).lower() in ("inf", "+inf", "infinity"):
                 return INF
+            name = self._canonical(name)
             if name not in self.calls and self._callee(n.func, env)[0] is not None:
                 return self._pure_call(n, env)
             args = [self.expr(a, env) for a in n.args]
@@ -313,11 +318,34 @@ class Interp:
             return INF if obj == float("inf") else None
         return _num(obj)
 
+    def _canonical(self, name):
+        """``monotonic`` / ``clock.monotonic`` -> ``time.monotonic`` when the module under analysis bound the name
+        to that very function (import style must not matter); unknown names are returned unchanged"""
+        if name in self.calls:
+            return name
+        parts = name.split(".")
+        obj = self.globs.get(parts[0], _MISSING)
+        for part in parts[1:]:
+            if obj is _MISSING:
+                break
+            obj = getattr(obj, part, _MISSING) if (inspect.ismodule(obj) or type(obj).__name__ == "ModProxy") else _MISSING
+        if obj is _MISSING:
+            return name
+        for cand in self.calls:
+            mod, _, attr = cand.rpartition(".")
+            try:
+                real = getattr(importlib.import_module(mod), attr) if mod else None
+            except Exception:  # noqa: BLE001
+                real = None
+            if real is not None and real is obj:
+                return cand
+        return name
+
     def _inlinable(self, n, env):
         if not isinstance(n, ast.Call):
             return False
         try:
-            if _key(n.func) in self.calls:
+            if self._canonical(_key(n.func)) in self.calls:
                 return False
         except Unsupported:
             return False
@@ -467,6 +495,17 @@ class Eviction:
         if self.found is None:
             raise Unsupported("no eviction over %s found from %s" % (table, fn.__qualname__))
 
+    @classmethod
+    def discover(cls, klass, table="self.buckets", calls=None):
+        """the coroutine method of ``klass`` that evicts entries of ``table`` (whatever it is called) -> (name, Eviction)"""
+        for name, f in vars(klass).items():
+            if inspect.iscoroutinefunction(f):
+                try:
+                    return name, cls(f, table, calls)
+                except Unsupported:
+                    continue
+        raise Unsupported("no coroutine method of %s evicts from %s" % (klass.__name__, table))
+
     def _scan_fn(self, fn, env, owner, depth):
         if depth > 4 or self.found is not None:
             return
@@ -500,11 +539,12 @@ class Eviction:
             if isinstance(st, ast.For) and _mentions(st.iter, self.table):
                 var = _value_var(st.target, st.iter)
                 for inner in st.body:
-                    if isinstance(inner, ast.If) and any(isinstance(x, ast.Delete) or (isinstance(x, ast.Expr) and ".pop(" in ast.unparse(x))
-                                                         for x in ast.walk(ast.Module(body=inner.body, type_ignores=[]))):
+                    # guarded deletion, or guarded collection of the keys to delete afterwards; which of the two (or an
+                    # inverted "keep" test) it is gets settled by the translation validation against the real loop
+                    if isinstance(inner, ast.If) and not inner.orelse:
                         self.found = (inner.test, False, var, dict(env), fn, it.owner)
                         return
-                raise Unsupported("loop over %s without a guarded deletion" % self.table)
+                raise Unsupported("loop over %s without a guarded statement" % self.table)
             if isinstance(st, ast.Expr):
                 call = st.value.value if isinstance(st.value, ast.Await) else st.value
                 if isinstance(call, ast.Call):
